@@ -4,6 +4,7 @@
 //!   itv record <m> <n>    n seeded random runs of module m -> ndjson trace on stdout
 mod c03;
 mod c04;
+mod c20;
 mod common;
 mod keys;
 mod model;
@@ -26,6 +27,7 @@ fn dispatch(st: &mut State, scn: &Value) -> Value {
             let ev = std::env::var("ITV_EVENTS").is_ok();
             st.verify.get_or_insert_with(|| verify::Ctx::new(&common::family(), &prop)).run(scn, ev, pin)
         }
+        "C20" => c20::run(scn),
         "C04" => st.c04.get_or_insert_with(|| c04::Ctx::new(&common::family())).run(scn, true, false),
         m => json!({"error": format!("unknown module {m}")}),
     }
@@ -80,6 +82,8 @@ fn main() {
                         writeln!(out, "{}", json!({"ev": "result", "out": r["outs"][0]})).unwrap();
                     }
                 }
+                "C20" => c20::record(n, &mut out),
+                "C20bin" => writeln!(out, "{}", c20::binary(n)).unwrap(),
                 "C03" => {
                     let mut rng = common::rng(3);
                     for run in 0..n {
